@@ -67,6 +67,24 @@ Example elab_correct_ex_sp :
   run_prog [bv_of_N 2 3] ex_prog_sp = Some ([(0, bv_of_N 4 4)], []).
 Proof. repeat split. Qed.
 
+(* a mutable index variable: the dynamic accesses use the index value AT THEIR PROGRAM POINT, also
+   when the index is re-assigned afterwards (from itself, and conditionally) *)
+Definition ex_prog_idx : block :=
+  block_of [Decl 0 false (EIn 0);                                                   (* UInt i = in0 (2 bit) *)
+            Decl 1 false (EConst (bv_of_N 4 0));                                     (* UInt x = 0 *)
+            Assign 1 [SDynBit (ESig 0) 2 4] (EConst [B1]);                           (* x[i] = '1' *)
+            Decl 2 true (EDynBit (ESig 1) (ESig 0) 2 4);                             (* Bit r = x[i] *)
+            Assign 0 [] (EAdd (ESig 0) (EConst (bv_of_N 2 1)));                      (* i = i + 1 *)
+            If (EIn 1) (block_of [Assign 0 [] (EConst (bv_of_N 2 3))]) CEnd;         (* IF (in1) i = 3 *)
+            Decl 3 false (EDynSlice (ESig 1) (ESig 0) 2 2)].                         (* UInt s = x(i, 2_b) *)
+Example elab_correct_ex_idx :
+  no_bare_else_if ex_prog_idx = true /\
+  run_prog [bv_of_N 2 0; [B0]] ex_prog_idx =
+    Some ([(3, bv_of_N 2 0); (2, [B1]); (1, bv_of_N 4 1); (0, bv_of_N 2 1)], []) /\
+  sig_values (eval_all [bv_of_N 2 0; [B0]] (eG (elab_prog 1 ex_prog_idx))) (eSigs (elab_prog 1 ex_prog_idx)) =
+    [(3, bv_of_N 2 0); (2, [B1]); (1, bv_of_N 4 1); (0, bv_of_N 2 1)].
+Proof. repeat split; vm_compute; reflexivity. Qed.
+
 (* the same, variable by variable: every variable in scope at the end *)
 Theorem elab_correct_signal : forall p n0 inp E R x v,
   1 <= n0 -> no_bare_else_if p = true -> run_prog inp p = Some (E, R) -> lookup x E = Some v ->
@@ -111,6 +129,15 @@ Proof. exact FrontendSpec.dyn_write_in_range_main. Qed.
 Print Assumptions dyn_write_in_range.
 Example dyn_write_in_range_ex :
   dyn_write (bv_of_N 8 0) (bv_of_N 3 5) (7, 1, 2) (fun _ => bv_of_N 2 3) = bv_of_N 8 96.
+Proof. reflexivity. Qed.
+
+(* the same for reads *)
+Theorem dyn_read_in_range : forall av iv k maxi mul w,
+  all_def iv = true -> bv_val iv = Some (N.of_nat k) -> k <= maxi ->
+  dyn_read av iv (maxi, mul, w) = extract_sem av (k * mul) w.
+Proof. exact FrontendSpec.dyn_read_in_range_main. Qed.
+Print Assumptions dyn_read_in_range.
+Example dyn_read_in_range_ex : dyn_read (bv_of_N 8 96) (bv_of_N 3 5) (7, 1, 2) = bv_of_N 2 3.
 Proof. reflexivity. Qed.
 
 (* ... and a defined index above maxIdx (the frontend's multiplexer has no such input) makes the
